@@ -1169,7 +1169,7 @@ func cloneStrings
 // ---- types.go: operators (documented run-time rules, GUIDE.md "类型" / operators) ----
 
 func (*VMValue).OpAdd
-  props C02 C01
+  props C02 C01 C07
   requires ctx != nil && v2 != nil
   ensures [C02] v.TypeId == VMTypeInt && v2.TypeId == VMTypeFloat ==> sameFloat(result.Value.(float64), float64(old(v.Value.(IntType))) + old(v2.Value.(float64)))
   ensures [C02] v.TypeId == VMTypeFloat && v2.TypeId == VMTypeInt ==> sameFloat(result.Value.(float64), old(v.Value.(float64)) + float64(old(v2.Value.(IntType))))
@@ -1197,7 +1197,7 @@ func (*VMValue).OpSub
   ensures [C02] !((v.TypeId == VMTypeInt || v.TypeId == VMTypeFloat) && (v2.TypeId == VMTypeInt || v2.TypeId == VMTypeFloat)) ==> result == nil
 
 func (*VMValue).ArrayRepeatTimesEx
-  props C02 C01
+  props C02 C01 C07
   requires ctx != nil && times != nil && v.TypeId == VMTypeArray
   ensures [C02] times.TypeId != VMTypeInt ==> result == nil && ctx.Error == old(ctx.Error)
   ensures [C02] times.TypeId == VMTypeInt && (old(times.Value.(IntType)) < 0 || old(times.Value.(IntType)) > 512 || old(IntType(len(v.Value.(*ArrayData).List))) * old(times.Value.(IntType)) > 512) ==> result == nil && ctx.Error != nil
@@ -1626,6 +1626,19 @@ func (*Context).LoadNameWithDetail
   ensures result == nil ==> ctx.Error != nil
   loop 1
     invariant curCtx != nil && ctx != nil && (hookCalls == 0 ==> name == old(name)) && (hookCalls == 1 ==> name == hookName) && hookCalls <= 1
+
+// solveLoadPostAndComputed: with a post-load hook installed the hook alone decides whether and when the value is
+// computed (it receives doCompute); the function itself computes exactly once only when no hook is installed (C17).
+func (*Context).solveLoadPostAndComputed
+  props C17 C01
+  requires ctx != nil && val != nil && 0 <= ctx.NumOpCount && ctx.NumOpCount <= math.MaxInt64 - 100
+  ghost var directComputes int = 0
+  ghost var hookCalls int = 0
+  ghost at call 1 HookValueLoadPost: hookCalls = hookCalls + 1
+  ghost at call 2 HookValueLoadPost: hookCalls = hookCalls + 1
+  ghost at call 1 doCompute: directComputes = directComputes + 1
+  ensures [C17] old(ctx.Config.HookValueLoadPost) == nil ==> directComputes == 1 && hookCalls == 0
+  ensures [C17] old(ctx.Config.HookValueLoadPost) != nil ==> directComputes == 0 && hookCalls == 1
 
 func (*Context).LoadNameLocalWithDetail
   props C17 C01
